@@ -882,6 +882,8 @@ pub fn drivers_for(property: &str, thorough: bool) -> Vec<Driver> {
                             let cfg = Config { flavour: fl, policy: pol, limit: Some(1), ttl, max_memory: None, fw: None, vtype: "String" };
                             let lbl = |s: &str| format!("L0:{}/{}/{}:{}", fl.name(), pol.name(), tname, s);
                             push(lbl("put~put"), vec![], vec![vec![TOp::L0Put(0, 0)], vec![TOp::L0Put(1, 0)]], Some(cfg.clone()), false);
+                            // k1 and k2 live in the same DashMap shard, k0 and k1 in different ones (`engine shards`)
+                            push(lbl("put~put (same shard)"), vec![], vec![vec![TOp::L0Put(1, 0)], vec![TOp::L0Put(2, 0)]], Some(cfg.clone()), false);
                             push(lbl("put-same~put-same"), vec![], vec![vec![TOp::L0Put(0, 0)], vec![TOp::L0Put(0, 1)]], Some(cfg.clone()), false);
                             push(lbl("get-hit~put"), vec![SOp::Op(TOp::L0Put(0, 0))], vec![vec![TOp::L0Get(0)], vec![TOp::L0Put(1, 0)]], Some(cfg.clone()), false);
                             if fl == Flavour::Global {
